@@ -293,7 +293,7 @@ def gen_vars(e):
 
 C07_TAGS = ["or", "or>or", "pat", "none", "rep", "join", "const", "expr0", "expr1", "wild", "neg", "cond", "multi-head", "fact",
             "or>rep", "or>pat", "or>expr1", "or>wild", "or>neg", "or>const", "or>or>rep", "or>or>pat", "or>or>expr1", "pat+rep", "pat+expr", "wild+expr", "neg+wild",
-            "or>cond", "multi-head+or", "multi-head-fact", "expr1x2", "orxor"]
+            "or>cond", "multi-head+or", "multi-head-fact", "expr1x2", "orxor", "letjoin"]
 
 
 def expr1_clauses(items):
@@ -326,6 +326,32 @@ def gen_c07_rule(rng, p, edb, idb, heads, want, low):
         if o1 is None or o2 is None: return None, None
         body = ([pre] if pre is not None else []) + [o1, o2]
         g.tags.add("orxor")
+    elif "letjoin" in want:
+        # a `let` ATTACHED to a clause (no comma) whose variable is then a bare argument of a LATER clause: `r(x, ..) let y = x + k, s(y, ..)` -
+        # the later clause must be looked up / tested on y (the variable is bound by the attached condition)
+        want = [w for w in want if w != "letjoin"]
+        cand = [r for r in g.rels_for(()) if S.rel_types(p, r).count("int") >= 1 and not p["rels"][r].get("lat")]
+        if not cand: return None, None
+        ra, rb = rng.choice(cand), rng.choice(cand)
+        x, y = g.fresh(), g.fresh()
+        def clause(r, first, conds):
+            tys = S.rel_types(p, r)
+            j0 = tys.index("int")
+            args = []
+            for j, t in enumerate(tys):
+                if j == j0: args.append(("v", first))
+                elif t == "int" and rng.chance(1, 2):
+                    v = g.fresh(); args.append(("v", v)); sc.bound[v] = "int"
+                else: args.append(("_",))
+            return ("cl", r, args, conds)
+        c1 = clause(ra, x, [("let", y, ("add", ("var", x), rng.range(0, 1)))])
+        sc.bound[x] = "int"; sc.bound[y] = "int"
+        mid = [g.gen_clause(sc, "", want=())] if rng.chance(1, 3) else []
+        if mid == [None]: mid = []
+        c2 = clause(rb, y, [])
+        g.tags.add("letjoin")
+        rest = g.gen_seq(sc, "", 0, rng.range(0, 1), want=want)
+        body = None if rest is None else [c1] + mid + [c2] + rest
     elif "expr1x2" in want:
         # two clauses of one conjunction, each with an expression argument over a variable the clause itself binds: `r(a, a + 1), q(b, b + 2)`
         want = [w for w in want if w != "expr1x2"]
@@ -363,7 +389,7 @@ def gen_c07_rule(rng, p, edb, idb, heads, want, low):
 def gen_c07_program(rng):
     p, edb, idb = gen_schema(rng)
     tags = set()
-    wants = rng.shuffle(["or", "pat", "rep", "expr1", "wild", "neg", "const", "cond", "none", "expr0", "expr1x2", "orxor"])
+    wants = rng.shuffle(["or", "pat", "rep", "expr1", "wild", "neg", "const", "cond", "none", "expr0", "expr1x2", "orxor", "letjoin"])
     plan = [[idb[0]]] + [[h] for h in idb[1:]] + [[rng.choice(idb[1:]), rng.choice(idb)]] + [[rng.choice(idb[1:])] for _ in range(rng.range(1, 3))]
     for heads in plan:
         heads = list(dict.fromkeys(heads))
